@@ -41,6 +41,7 @@ fn main() {
 			write!(out, " {v}").unwrap();
 		}
 		writeln!(out).unwrap();
+		out.flush().unwrap(); // a later abort (UB check) must not swallow finished transcripts
 	}
 	out.flush().unwrap();
 }
